@@ -94,6 +94,9 @@ template <class T> static T in(Dom d)
 #ifndef DLIM
 #define DLIM 15  // bound on log2|divisor| / |multiplier| where the oracle multiplies two symbolic values
 #endif
+#ifndef ALIM
+#define ALIM 0   // bound on log2|dividend| in the same entries (0 = whole range)
+#endif
 template <class T> static void lim(T c, int bits) { if (bits && bits < int(sizeof(T) * 8 - 1)) vf_assume(c > -(T(1) << bits) && c < (T(1) << bits)); }
 
 #if !REPF
@@ -159,6 +162,50 @@ Q q_round()
     vf_assert(diff <= W(CD) - diff && diff >= -W(CD) - diff, "round: nearest");
     if (diff == W(CD) - diff || diff == -W(CD) - diff) vf_assert((r & 1) == 0, "round: ties to even");
 }
+// The same obligation, decomposed: the floor lemma "k_floor(c) is the exact floor" is what q_floor proves for every count of
+// D_FLOOR (a superset of D_ROUND) in the same configuration; here it is assumed for the value k_floor(c) (round calls
+// floor on the same argument), so that the solver only has to deal with the tie-breaking logic on top of it.
+Q q_round_lem()
+{
+    REP c = in<REP>(D_ROUND);
+    W num = W(c) * W(CN);
+    REP f = k_floor(c); W F = f;
+    vf_assume(F * W(CD) <= num && num < (F + 1) * W(CD));
+    REP r = k_round(c); W R = r;
+    W diff = num - R * W(CD);
+    vf_assert(diff <= W(CD) - diff && diff >= -W(CD) - diff, "round: nearest (given the floor lemma)");
+    if (diff == W(CD) - diff || diff == -W(CD) - diff) vf_assert((r & 1) == 0, "round: ties to even (given the floor lemma)");
+}
+Q q_round_x1()
+{
+    REP c = in<REP>(D_ROUND);
+    W num = W(c) * W(CN);
+    REP r = k_round(c); W R = r;
+    W diff = num - R * W(CD);
+    vf_assert(diff <= W(CD) - diff && diff >= -W(CD) - diff, "round: nearest");
+}
+Q q_round_x2()
+{
+    REP c = in<REP>(D_ROUND);
+    W num = W(c) * W(CN);
+    REP r = k_round(c); W R = r;
+    W d2 = 2 * (num - R * W(CD));
+    vf_assert(d2 <= W(CD) && d2 >= -W(CD), "round: nearest");
+}
+Q q_round_x3()
+{
+    REP c = in<REP>(D_ROUND);
+    W num = W(c) * W(CN);
+    REP r = k_round(c); W R = r;
+    W d2 = 2 * (num - R * W(CD));
+    if (d2 == W(CD) || d2 == -W(CD)) vf_assert((r & 1) == 0, "round: ties to even");
+}
+Q q_round_x4()
+{
+    REP c = in<REP>(D_ROUND);
+    REP r = k_round(c), f = k_floor(c);
+    vf_assert(r == f || i128(r) == i128(f) + 1, "round: floor or floor + 1");
+}
 Q q_round_std()
 {
     REP c = in<REP>(D_ROUND);
@@ -215,22 +262,32 @@ Q q_cmp()
     vf_assert(r == e, "six comparisons are the comparisons of the exact rationals");
     vf_assert(r == six(SFrom{a}, STo{b}), "comparisons == std::chrono");
 }
-// d / d and d % d over the whole domain against std::chrono
-Q q_moddiv_std()
+// d / d and d % d over the whole domain against std::chrono (two divider instances have to agree: SMT back end)
+Q q_moddiv()
+{
+    REP a = in<REP>(D_A), b = in<REP>(D_B);
+    REP An = REP(W(a) * W(FF)), Bn = REP(W(b) * W(TF));  // exact: the products fit Rep on this domain (D_A, D_B)
+    vf_assume(Bn != 0 && !(i128(An) == RMIN && Bn == -1));
+    REP m = k_mod(a, b), d = k_ddiv(a, b);
+    vf_assert(m == (SFrom{a} % STo{b}).count() && d == SFrom{a} / STo{b}, "d % d, d / d == std::chrono");
+}
+// the same against the definition of truncated division, without any division in the oracle (needs a symbolic product:
+// divisor bounded by DLIM). The quotient and the remainder are each checked on their own.
+Q q_divdef()
+{
+    REP a = in<REP>(D_A), b = in<REP>(D_B); lim(b, DLIM); lim(a, ALIM); W A = W(a) * W(FF), B = W(b) * W(TF);
+    vf_assume(B != 0 && !(A == W(RMIN) && B == -1));
+    REP d = k_ddiv(a, b);
+    W rem = A - W(d) * B, aB = B < 0 ? -B : B;
+    vf_assert((rem < 0 ? -rem : rem) < aB && (rem == 0 || (rem < 0) == (A < 0)), "d / d: A - q*B is smaller than |B| and has the sign of A");
+}
+Q q_moddef()
 {
     REP a = in<REP>(D_A), b = in<REP>(D_B); W A = W(a) * W(FF), B = W(b) * W(TF);
     vf_assume(B != 0 && !(A == W(RMIN) && B == -1));
-    vf_assert(k_mod(a, b) == (SFrom{a} % STo{b}).count(), "d % d == std::chrono");
-    vf_assert(k_ddiv(a, b) == SFrom{a} / STo{b}, "d / d == std::chrono");
-}
-// d / d and d % d against the definition of truncated division (needs a symbolic product: divisor bounded by DLIM)
-Q q_moddiv()
-{
-    REP a = in<REP>(D_A), b = in<REP>(D_B); lim(b, DLIM); W A = W(a) * W(FF), B = W(b) * W(TF);
-    vf_assume(B != 0 && !(A == W(RMIN) && B == -1));
-    REP m = k_mod(a, b), d = k_ddiv(a, b);
-    vf_assert(W(d) * B + W(m) == A, "d/d and d%d: A == q*B + r");
-    vf_assert((m < 0 ? -W(m) : W(m)) < (B < 0 ? -B : B) && (m == 0 || (m < 0) == (A < 0)), "remainder magnitude and sign");
+    REP m = k_mod(a, b);
+    W aB = B < 0 ? -B : B;
+    vf_assert((m < 0 ? -W(m) : W(m)) < aB && (m == 0 || (m < 0) == (A < 0)), "d % d: remainder magnitude and sign");
 }
 Q q_unary()
 {
@@ -259,23 +316,36 @@ Q q_cmul()
     vf_assume(e >= M(RMIN) && e <= M(RMAX));
     vf_assert(M(k_cmul(a, b)) == e, "compound *= scalar");
 }
+// compound /= and %= over the whole range against the built-in operators in a wider type and against std::chrono
 Q q_cdivmod()
 {
-    REP a = nd(), b = nd(); lim(b, DLIM);
+    REP a = nd(), b = nd();
     typedef std::conditional_t<REPW <= 32, long long, i128> M;
     vf_assume(b != 0 && !(i128(a) == RMIN && b == -1));
+    SFrom x{a}, y{a}, z{a}; x /= b; y %= b; z %= SFrom{b};
     REP q = k_cdiv(a, b), m = k_cmod(a, b), m2 = k_cmodd(a, b);
-    // truncated division stated without division: a == q*b + m, |m| < |b|, m == 0 or sign(m) == sign(a)
-    vf_assert(M(q) * M(b) + M(m) == M(a) && (m < 0 ? -M(m) : M(m)) < (b < 0 ? -M(b) : M(b)) && (m == 0 || (m < 0) == (a < 0)), "compound /= %= truncated division");
-    vf_assert(m2 == m, "%= duration == %= scalar on the count");
+    vf_assert(M(q) == M(a) / M(b) && M(m) == M(a) % M(b) && m2 == m, "compound /= %= truncated division of the count");
+    vf_assert(q == x.count() && m == y.count() && m2 == z.count(), "compound /= %= == std::chrono");
 }
-// compound /= and %= over the whole range against std::chrono
-Q q_cdivmod_std()
+// truncated division stated without division (symbolic product: |b| bounded by DLIM); quotient and remainder on their own
+Q q_cdivdef()
+{
+    REP a = nd(), b = nd(); lim(b, DLIM); lim(a, ALIM);
+    typedef std::conditional_t<REPW <= 32, long long, i128> M;
+    vf_assume(b != 0 && !(i128(a) == RMIN && b == -1));
+    REP q = k_cdiv(a, b), m = k_cmod(a, b);
+    M rem = M(a) - M(q) * M(b), ab = b < 0 ? -M(b) : M(b);
+    vf_assert((rem < 0 ? -rem : rem) < ab && (rem == 0 || (rem < 0) == (a < 0)), "/=: a - q*b is smaller than |b| and has the sign of a");
+    vf_assert((m < 0 ? -M(m) : M(m)) < ab && (m == 0 || (m < 0) == (a < 0)), "%=: remainder magnitude and sign");
+}
+Q q_cmul_std()
 {
     REP a = nd(), b = nd();
-    vf_assume(b != 0 && !(i128(a) == RMIN && b == -1));
-    SFrom x{a}, y{a}, z{a}; x /= b; y %= b; z %= SFrom{b};
-    vf_assert(k_cdiv(a, b) == x.count() && k_cmod(a, b) == y.count() && k_cmodd(a, b) == z.count(), "compound /= %= == std::chrono");
+    typedef std::conditional_t<REPW <= 32, long long, i128> M;
+    M e = M(a) * M(b);
+    vf_assume(e >= M(RMIN) && e <= M(RMAX));
+    SFrom x{a}; x *= b;
+    vf_assert(k_cmul(a, b) == x.count(), "compound *= == std::chrono");
 }
 Q q_tp_arith()
 {
@@ -332,13 +402,16 @@ Q q_fabs()
 Q q_faddsub()
 {
     REP a = nd(), b = nd();
-    vf_assert(same(k_add(a, b), (SFrom{a} + STo{b}).count()), "a + b == std::chrono (floating Rep)");
+    // IEEE addition is commutative; the two operand orders are the same value but not the same term for the solver
+    REP s = k_add(a, b);
+    vf_assert(same(s, (SFrom{a} + STo{b}).count()) || same(s, (STo{b} + SFrom{a}).count()), "a + b == std::chrono (floating Rep)");
     vf_assert(same(k_sub(a, b), (SFrom{a} - STo{b}).count()), "a - b == std::chrono (floating Rep)");
     vf_assert(same(k_to_common(a), SCT{SFrom{a}}.count()) && same(k_to_common_b(b), SCT{STo{b}}.count()), "conversion to the common type == std::chrono (floating Rep)");
 }
 Q q_fcmp()
 {
     REP a = nd(), b = nd();
+    vf_assume(a == a && b == b);  // NaN counts: the standard defines <= as !(rhs < lhs) (what etl does); libstdc++ answers false - not a tick count with a result
     vf_assert(k_cmp(a, b) == six(SFrom{a}, STo{b}), "comparisons == std::chrono (floating Rep)");
     vf_assert(k_tp_cmp(a, b) == six(STP{SFrom{a}}, STP2{STo{b}}), "time_point comparisons == std::chrono (floating Rep)");
 }
@@ -395,7 +468,8 @@ Q q_mixed()
     if constexpr (!REP2F) lim(b, 24);
     vf_assert(same(k_mcommon_a(a), SCT2{SFrom{a}}.count()), "mixed Rep: conversion of the first operand to the common type == std::chrono");
     vf_assert(same(k_mcommon_b(b), SCT2{STo2{b}}.count()), "mixed Rep: conversion of the second operand to the common type == std::chrono");
-    vf_assert(same(k_madd(a, b), (SFrom{a} + STo2{b}).count()) && same(k_msub(a, b), (SFrom{a} - STo2{b}).count()), "mixed Rep: + - == std::chrono");
+    MREP s = k_madd(a, b);
+    vf_assert((same(s, (SFrom{a} + STo2{b}).count()) || same(s, (STo2{b} + SFrom{a}).count())) && same(k_msub(a, b), (SFrom{a} - STo2{b}).count()), "mixed Rep: + - == std::chrono");
     vf_assert(k_mcmp(a, b) == six(SFrom{a}, STo2{b}), "mixed Rep: comparisons == std::chrono");
 }
 #endif
